@@ -94,6 +94,31 @@ def shape_class(p):
     return ('other', t)
 
 
+def inline_array_type_rule(res, fx):
+    """MessageField::IsEqualTo compares an inline item with the first item of an array through a typed pointer: the pointee type must be the inline accessor's type"""
+    res.rule('TABLE-1', 'in MessageField::IsEqualTo every comparison of an inline item (GetInlineItemAsX()) with an array item read through a cast pointer uses the same item type on both sides', floor=None)
+    fs = [f for f in fx.funcs.values() if f.full and f.q == MF + '::IsEqualTo']
+    if not fs:
+        raise AnalysisBroken('IsEqualTo not found')
+    n = 0
+    norm = lambda t: re.sub(r'\s+', ' ', t.replace('const', ' ').replace('&', ' ')).replace(' *', '*').strip()
+    for f in fs:
+        for c in f.walk():
+            if c['k'] != 'BinaryOperator' or c.get('op') != '==':
+                continue
+            l, r = A.strip_casts(c['ch'][0]), A.strip_casts(c['ch'][1])
+            for (a, b) in ((l, r), (r, l)):
+                if a.is_call() and re.search(r'::GetInlineItemAs\w+$', a.get('q') or '') and b['k'] == 'UnaryOperator' and b.get('op') == '*':
+                    n += 1
+                    ta, tb = norm(a.type()), norm(b.type())
+                    res.ob('TABLE-1', f.where(c), 'IsEqualTo: %s compared with an array item of type %s' % ((a.get('q') or '').split('::')[-1], tb), ta == tb, function=f.q,
+                           key='TABLE-1|%s|inline-vs-array:%s' % (f.q, (a.get('q') or '').split('::')[-1]),
+                           message='MessageField::IsEqualTo compares %s (type %s) with `%s` (type %s): a field that reached one item by removal stays an array, its round trip is inline, and the mixed '
+                                   'comparison then looks at the wrong number of bytes — equal Messages compare unequal' % ((a.get('q') or '').split('::')[-1], ta, b.text(50), tb))
+    if n < 6:
+        raise AnalysisBroken('TABLE-1: only %d inline-vs-array comparisons found in IsEqualTo' % n)
+
+
 def ring_contiguous_rule(res, fx):
     """Queue is a ring buffer: HeadPointer() is the first of N contiguous items only right after Clear()/Normalize() (+EnsureSize).  A bulk read or write through it anywhere else
     flattens garbage for a field whose items wrapped around (built with Prepend*)."""
@@ -410,6 +435,7 @@ def run(res, tier):
     dispatch_rule(res, fx)
     S.sticky_rule(res, fx, 'STICKY', file_re=r'^(message/|util/String|util/ByteBuffer|support/(Point|Rect|Tuple))', floor=6)
     ring_contiguous_rule(res, fx)
+    inline_array_type_rule(res, fx)
     exact_fit_rule(res, fx)
     min_entry_rule(res, fx)
     checksum_agree_rule(res, fx, tcs, table)
